@@ -181,6 +181,18 @@ CLAIMED = {
              '5xx postpones (no request to that origin until it is obtained); coverage equals the reference crawl.',
         note='Trusted: refs/robots.py for the restricted dialect, refs/site.py, refs/scope.py. Concurrent first fetches of one '
              'robots.txt are not judged.'),
+    'C03': dict(
+        level='fault_enumeration', engine='crash', design_ref='4/C03',
+        technique='deterministic simulation with real process kills: run 1 of the whole application executes in a forked child on a '
+                  'replayed schedule and dies with os._exit(137) at an enumerated instant (before/after every SQL statement and commit, '
+                  'on every server request and delivered segment); a copy of the SQLite files is inspected; run 2 (same command) resumes, '
+                  'optionally killed again',
+        text='Workloads (site graph, concurrency, schedule) are sampled; per workload the kill instants are enumerated: all of them in '
+             'the thorough tier, a drawn sample (incl. instants right after status commits and during schema creation) in the quick '
+             'tier. Oracle: no URL recorded done/skipped before the kill is requested again as an item; no row lost or left non-final; '
+             'the runs together request every URL of the reference crawl; the resumed run terminates with exit 0; scope does not widen.',
+        note='Trusted: SQLite atomic commit below statement level; process kill (not power loss); schedules replay exactly because one '
+             'recorded tape drives run 0 and every killed run. Redirect follow-ups inside an item are exempt from the no-refetch clause.'),
 }
 
 PENDING_REASON = 'check not built yet in this round (designed in DESIGN.md section 4); no claim is made'
